@@ -530,35 +530,47 @@ class XPathToken(Token[ta.XPathTokenType]):
         msg = "cannot compare {!r} and {!r}"
 
         if self.parser.compatibility_mode:
-            left_values = [x for x in self._items[0].atomization(context)]
-            right_values = [x for x in self._items[1].atomization(context)]
-            # Boolean comparison if one of the results is a single boolean value (1.)
-            try:
-                if isinstance(left_values[0], bool):
-                    if len(left_values) == 1:
-                        yield left_values[0], self.boolean_value(right_values)
-                        return
-                if isinstance(right_values[0], bool):
-                    if len(right_values) == 1:
-                        yield self.boolean_value(left_values), right_values[0]
-                        return
-            except IndexError:
+            left_items = [x for x in self._items[0].select(copy(context))]
+            right_items = [x for x in self._items[1].select(copy(context))]
+            left_values = [v for x in left_items for v in self._items[0].atomize_item(x)]
+            right_values = [v for x in right_items for v in self._items[1].atomize_item(x)]
+            relational = self.symbol in ('<', '<=', '>', '>=')
+
+            # Boolean comparison if one of the operands is a single boolean value (1.):
+            # the other operand is converted with fn:boolean (a non-empty node-set is true)
+            left_bool = len(left_values) == 1 and isinstance(left_values[0], bool)
+            right_bool = len(right_values) == 1 and isinstance(right_values[0], bool)
+            if left_bool or right_bool:
+                if relational and self.parser.version == '1.0' and \
+                        not any(isinstance(x, XPathNode) for x in left_items + right_items):
+                    # XPath 1.0: neither operand is a node-set, both are converted to numbers
+                    yield self.number_value(left_values[0]), self.number_value(right_values[0])
+                    return
+
+                b1 = left_values[0] if left_bool else self.boolean_value(left_items)
+                b2 = right_values[0] if right_bool else self.boolean_value(right_items)
+                if relational:
+                    yield float(b1), float(b2)
+                else:
+                    yield b1, b2
+                return
+            elif not left_values or not right_values:
                 return
 
             # Converts to float for lesser-greater operators (3.)
-            if self.symbol in ('<', '<=', '>', '>='):
+            if relational:
+                yield from product(map(self.number_value, left_values),
+                                   map(self.number_value, right_values))
+                return
+            elif (any(isinstance(x, NumericProxy) for x in left_values) or
+                    any(isinstance(x, NumericProxy) for x in right_values)) and \
+                    not any(isinstance(x, bool) for x in left_values + right_values):
+                # If one operand is a number the other one is converted to a number (2.)
                 yield from product(map(self.number_value, left_values),
                                    map(self.number_value, right_values))
                 return
             elif self.parser.version == '1.0':
-                # XPath 1.0: if one operand is a number the other one is converted to a number
-                for op1, op2 in product(left_values, right_values):
-                    if isinstance(op1, NumericProxy) and isinstance(op2, str):
-                        yield op1, self.number_value(op2)
-                    elif isinstance(op2, NumericProxy) and isinstance(op1, str):
-                        yield self.number_value(op1), op2
-                    else:
-                        yield op1, op2
+                yield from product(left_values, right_values)
                 return
         else:
             left_values = self._items[0].atomization(context)
